@@ -48,6 +48,37 @@ class StoreWorldGen(WorldGen):
                 return b
         return "b0"
 
+    def make_btx(self, endorsed, bparent=None):
+        """BTC endorsement transaction of VBK block `endorsed`, mined now into a new BTC block -> (x id, btc id)"""
+        bparent = bparent or self.btip
+        self.nx = getattr(self, "nx", 0) + 1
+        x = "x%d" % self.nx
+        bid = "b%d" % self.nb
+        self.nb += 1
+        self.btc[bid] = dict(parent=bparent, height=self.btc[bparent]["height"] + 1)
+        self.emit("btx %s %s %s" % (x, endorsed, bparent), bid)
+        if self.btc[bid]["height"] > self.btc[self.btip]["height"]:
+            self.btip = bid
+        self.btx = getattr(self, "btx", {})
+        self.btx[x] = dict(endorsed=endorsed, bop=bid)
+        return x, bid
+
+    def make_vtb_of(self, x, last_known_btc, vparent=None):
+        """the VTB of transaction `x`, created now: its containing VBK block is new, its BTC block of proof old"""
+        vparent = vparent or self.vtip
+        wid = "w%d" % self.nw
+        self.nw += 1
+        vid = "v%d" % self.nv
+        self.nv += 1
+        self.vbk[vid] = dict(parent=vparent, height=self.vbk[vparent]["height"] + 1)
+        bop = self.btx[x]["bop"]
+        self.vtb[wid] = dict(endorsed=self.btx[x]["endorsed"], containing=vid, bop=bop, last=last_known_btc,
+                             bctx=self.bpath(last_known_btc, bop))
+        self.emit("vtbx %s %s %s %s" % (wid, x, vparent, last_known_btc), vid)
+        if self.vbk[vid]["height"] > self.vbk[self.vtip]["height"]:
+            self.vtip = vid
+        return wid
+
     def sp_fork_block(self, parent):
         """an ALT block whose body brings a stale VBK fork (2-4 blocks) that branches off an old VBK block -
         preferably an interior block of the bootstrap chain - and, half of the time, a VTB whose BTC block of
@@ -289,6 +320,62 @@ def gen_late(rng, cfg, nblocks, late_chance=(2, 3), save_chance=(1, 3)):
     return g, h.rec, saves
 
 
+def gen_btcfin(rng, cfg):
+    """BTC finalization (BtcChainParams::getMaxReorgBlocks asserts >= the difficulty adjustment interval, 2016 on
+    regtest; preserveBlocksBehindFinal is 0 for BTC): one VTB teaches the instance a BTC chain of maxreorg + x - d
+    blocks (x: height of an early BTC block bX that carries a BTC endorsement transaction whose VBK pop transaction
+    has not been created yet), save; later one ALT block brings a prompt VTB that advances the BTC tip by d + 1..3
+    blocks AND the late VTB of that early transaction: the old, saved block bX gets a second reference below clean
+    blocks while the finalization of the same setState moves the BTC root across it; save, reload, roll back.
+    -> (gen, ops, saves)"""
+    g = StoreWorldGen(rng, cfg)
+    h = RecHistory(g)
+    r = rng
+    M = cfg["btc_maxreorg"]
+    best = "a0"
+    saves = []
+
+    def block(atvs=(), vtbs=(), extra=()):
+        nonlocal best
+        a = g.new_alt(best)
+        g.set_pd(a, atvs=list(atvs), vtbs=list(vtbs), extra_ctx=list(extra))
+        h.show(a, order="inorder")
+        h.on("set", a)
+        best = a
+        return a
+
+    v = [g.mine_vbk() for _ in range(r.range(3, 5))]
+    block(extra=v)
+    for _ in range(r.range(1, 4)):
+        g.mine_btc()
+    x, bx = g.make_btx(r.choice(v[1:]))
+    hx = g.btc[bx]["height"]
+    d = r.range(1, 3)
+    while g.btc[g.btip]["height"] < M + hx - d - 1:
+        g.mine_btc()
+    w1 = g.make_vtb(g.vtip, g.last_known_on(g.alt[best]["kb"], g.btip))      # bop at height M + hx - d
+    block(vtbs=[w1])
+    saves.append(len(h.rec))
+    if r.chance(1, 2):
+        block(atvs=[g.make_atv(best)])
+        if r.chance(1, 2):
+            saves.append(len(h.rec))
+    for _ in range(d + r.range(0, 2)):
+        g.mine_btc()
+    w2 = g.make_vtb(g.vtip, g.last_known_on(g.alt[best]["kb"], g.btip))
+    wx = g.make_vtb_of(x, g.btc[bx]["parent"])
+    late = block(vtbs=[w2, wx] if r.chance(1, 2) else [wx, w2])
+    saves.append(len(h.rec))
+    # roll the late block back on the live and on the reloaded instance and continue on a sibling.  (Re-applying the
+    # late block is not part of the history: BTC preserves nothing behind the final block, so the connecting block
+    # of the late VTB is gone once the root has moved up to bX, and the VTB cannot be validated a second time.)
+    best = g.alt[late]["parent"]
+    h.on("set", best)
+    block(atvs=[g.make_atv(best)] if best != "a0" else [])
+    saves.append(len(h.rec))
+    return g, h.rec, saves
+
+
 def tail_ops(g, rng, k=6):
     """follow-up behaviour: cmp/set/payout on several candidates"""
     ids = sorted(g.alt, key=lambda a: (-g.alt[a]["height"], int(a[1:])))
@@ -478,6 +565,21 @@ def reload_inconsistencies(dump):
                 if w:
                     vtb_at.setdefault(w, []).append((m.group(1), int(m.group(2))))
     bad = []
+    refs = {}
+    for l in dump.split(";"):
+        m = _PROJ["BTC"].match(l)
+        if m:
+            refs[m.group(1)] = [x for x in m.group(4).strip("[]").split(",") if x]
+    for l in dump.split(";"):
+        m = _PROJ["VBK"].match(l)
+        if m and int(m.group(3)) & 512:
+            # containing endorsements of an applied VBK block: endorsed>containing@blockOfProof
+            for e in m.group(6).strip("[]").split(","):
+                if "@" in e:
+                    b = e.split("@")[1]
+                    if m.group(2) not in refs.get(b, []):
+                        bad.append("BTC block of proof %s of the VTB in active VBK block %s (height %s) has refs %s"
+                                   % (b, m.group(1), m.group(2), refs.get(b)))
     for l in dump.split(";"):
         m = _PROJ["ALT"].match(l)
         if m and int(m.group(3)) & 512:
